@@ -3287,3 +3287,49 @@ pub(crate) fn verif_loop_filter(
     }
     (d.frame.ybuf, d.frame.ubuf, d.frame.vbuf)
 }
+
+/// `Vp8Decoder::read_residual_data` for one macroblock on a caller-supplied partition: token
+/// probabilities of all four planes (4 x 8 x 3 x 11), B_PRED or not, the nine context flags of the
+/// macroblock above and to the left, the six dequantisation factors (ydc, yac, y2dc, y2ac, uvdc,
+/// uvac). Returns the 384 values handed to prediction, the non-zero flag and the context flags
+/// afterwards.
+#[cfg(image_webp_verif)]
+#[allow(clippy::type_complexity)]
+pub(crate) fn verif_read_residual_data(
+    data: &[u8],
+    probs: &[u8],
+    bpred: bool,
+    top: [u8; 9],
+    left: [u8; 9],
+    quant: [i16; 6],
+) -> Result<(Vec<i32>, bool, [u8; 9], [u8; 9]), DecodingError> {
+    let mut d = Vp8Decoder::new(std::io::empty());
+    let mut buf = vec![[0u8; 4]; data.len().div_ceil(4)];
+    buf.as_mut_slice().as_flattened_mut()[..data.len()].copy_from_slice(data);
+    d.partitions[0].init(buf, data.len())?;
+    for plane in 0..4 {
+        for band in 0..8 {
+            for ctx in 0..3 {
+                for t in 0..NUM_DCT_TOKENS - 1 {
+                    d.token_probs[plane][band][ctx][t].prob =
+                        probs[((plane * 8 + band) * 3 + ctx) * (NUM_DCT_TOKENS - 1) + t];
+                }
+            }
+        }
+    }
+    d.top = vec![MacroBlock::default()];
+    d.top[0].complexity = top;
+    d.left.complexity = left;
+    d.segment[0].ydc = quant[0];
+    d.segment[0].yac = quant[1];
+    d.segment[0].y2dc = quant[2];
+    d.segment[0].y2ac = quant[3];
+    d.segment[0].uvdc = quant[4];
+    d.segment[0].uvac = quant[5];
+    let mb = MacroBlock {
+        luma_mode: if bpred { LumaMode::B } else { LumaMode::DC },
+        ..Default::default()
+    };
+    let (blocks, non_zero) = d.read_residual_data(&mb, 0, 0)?;
+    Ok((blocks.to_vec(), non_zero, d.top[0].complexity, d.left.complexity))
+}
